@@ -473,10 +473,10 @@ func caseKey(c pcase) string { return fmt.Sprintf("%05d|%s", len(c.Path), c.Path
 
 func main() {
 	run := evid.New("C38", "exploration")
-	run.Rule = "builder (independent implementation of the Docker registry layout under /docker/registry/v2) x every repository of 1..k components over 21 words (ordinary + every layout word that is a legal component) x 16 tags (incl. layout words and the '_'-prefixed section keywords, legal by the tag grammar) x 2/4 digests x 3 upload uuids x 2 algorithms x 3 offsets, for 12 path kinds; each built path is given to the real ParsePath and to every extractor of its kind, which must return the kind / components built. Each built path (for one representative digest / upload id / algorithm / offset per repository, kind and tag; repositories of <= 2 components; quick tier: 5 of the 16 tags) is then mutated out of the layout (one keyword misspelt, mandatory final segment dropped, segment appended after a file, tag with extra segment, malformed digest, non-numeric offset, incomplete paths) and must be rejected (ParsePath or an extractor of the kind errors; ParsePath itself for every mutation except malformed digests and paths that keep the shape _manifests/(tags|revisions)/.../link). distinct = distinct built paths (each a different component tuple); mutated paths are counted separately."
-	run.Assume("small-scope: repositories of <= 3 components over a 21-word vocabulary, 16 tags, 4 digests, 3 upload ids; registry prefix fixed to /docker/registry/v2 (what docker distribution passes to a storage driver)")
-	run.Assume("valid names = Docker reference grammar (repository components [a-z0-9]+ with ._- separators, tag [\\w][\\w.-]{0,127}), digest = 64 lowercase hex, upload id = uuid; generated vocabularies are validated against these grammars at start")
-	run.Assume("rejected = ParsePath or at least one extractor the kind needs returns an error, and ParsePath itself must reject every mutated path except malformed digests and paths of the shape _manifests/(tags|revisions)/.../link; acceptance that is looser than the layout by design of the regexps (arbitrary middle segments under _manifests/tags/.../link at ParsePath level, blob shard directory not matching the digest, non-keyword prefix before /repositories) is not probed")
+	run.Rule = "builder (independent implementation of the Docker registry layout under /docker/registry/v2) x every repository of 1..k components over 21 words (ordinary + every layout word that is a legal component) x 16 tags (incl. layout words and the '_'-prefixed section keywords, legal by the tag grammar) x 2/4 digests x 3 upload uuids x 2 algorithms x 3 offsets, for 12 path kinds; each built path is given to the real ParsePath and to every extractor of its kind, which must return the kind / components built. (a) Scripted mutations: each built path (for one representative digest / upload id / algorithm / offset per repository, kind and tag; repositories of <= 2 components; quick tier: 5 of the 16 tags) is mutated out of the layout (one keyword misspelt, mandatory final segment dropped, segment appended after a file, tag with extra segment, malformed digest, non-numeric offset, incomplete paths) and must be rejected. (b) Systematic single mutations: each base path (same representatives; every blob path; quick: every 1-component repository + the 2-component repositories over {kraken,a_b,repositories}; thorough: every repository of <= 2 components, all 16 tags for 1-component and 5 tags for 2-component repositories) is split into its components (fixed directory names from 'repositories'/'blobs' on, repository components, tag, digest, blob shard directory, upload id, algorithm, offset) and EVERY single mutation of EVERY component is generated: character deleted at every position, character duplicated at every position, truncation to every shorter prefix (incl. empty), extension at the start and at the end by every character of the component's class alphabet (hex slots: 0-9a-f,g,A; offset: 0-9,a; names and fixed names: a,z,0,9,A,_,.,-), case of every single letter changed, whole component upper-cased / lower-cased, component deleted, component duplicated, component swapped with its right neighbour, component replaced by a copy of its left / right neighbour. An independently written reference grammar of the layout puts every mutated path into one of three sets: well-formed (a path of one of the 12 kinds from valid components under the fixed root -> checked like a built path against the components of the reference parse), not-layout (no reading at all - any root prefix, any repository split, any non-empty text in the name slots - makes it an instance of the layout -> must be rejected), undecided (structure intact but a repository/tag/upload id/algorithm is not a valid name, or a layout path only under another root -> executed, only panics are violations). Rejected = ParsePath or an extractor of the base kind errors; ParsePath itself must reject too, except malformed digests, paths that keep the shape _manifests/(tags|revisions)/.../link and mutations inside repositories/<repository> (GetRepo's part). distinct = distinct built paths (each a different component tuple); mutated paths are counted separately, per operator, per component and per reference verdict."
+	run.Assume("small-scope: repositories of <= 3 components over a 21-word vocabulary, 16 tags, 4 digests, 3 upload ids; registry prefix fixed to /docker/registry/v2 (what docker distribution passes to a storage driver) and never mutated; mutations are single (one operator applied once to one component)")
+	run.Assume("valid names = Docker reference grammar (repository components [a-z0-9]+ with ._- separators, tag [\\w][\\w.-]{0,127}), digest = 64 lowercase hex, blob shard directory = first two characters of the digest, upload id = uuid, algorithm = [a-z0-9]+, offset = decimal; generated vocabularies are validated against these grammars at start, every built path must be read back by the reference grammar as the kind and components built, and every scripted mutation must be not-layout by the reference grammar (harness error otherwise)")
+	run.Assume("rejected = ParsePath or at least one extractor the kind needs returns an error, and ParsePath itself must reject every not-layout path except malformed digests, paths of the shape _manifests/(tags|revisions)/.../link and mutations of the repositories/<repository> part; what the statement does not decide is not given an oracle: invalid NAMES in an intact structure (kraken leaves name validation to the registry front end), paths that are layout paths under another root (text before /repositories resp. /blobs is opaque to kraken), a 2-character blob shard directory that differs from the digest's first two characters is not-layout by the reference grammar but no single mutation of this alphabet produces it (it needs a character substitution), so it stays unprobed")
 
 	if rp := run.ReplayPath(); rp != "" {
 		b, err := os.ReadFile(rp)
@@ -722,6 +722,16 @@ func main() {
 	}
 	ms := mutations(ex[16])
 	run.Sample(map[string]interface{}{"kind": ex[16].Kind, "mutation": ms[len(ms)-1].Mutation, "path": ms[len(ms)-1].Path})
+	// one written-out systematic mutation per reference verdict and base
+	for _, b := range []pcase{buildBlobs()[0], ex[16]} {
+		seenV := map[verdict]bool{}
+		for _, m := range sysMutations(b) {
+			if _, v := refVerdict(m.Path); !seenV[v] {
+				seenV[v] = true
+				run.Sample(map[string]interface{}{"kind": b.Kind, "component": m.Comp, "operator": m.Op, "reference_verdict": v.String(), "path": m.Path})
+			}
+		}
+	}
 	run.Set("repositories", len(rs))
 	run.Set("built_paths", built)
 	run.Set("built_paths_per_kind", perKind)
